@@ -101,7 +101,7 @@ func (f *Frame) execCall(v ssa.Value, c *ssa.CallCommon, st *State) {
 	site := root.callSeq
 
 	// C12: functions claimed deterministic must not reach a source of local nondeterminism
-	if (name == "time.Now" || name == "time.Since" || name == "os.Getenv" || name == "os.Hostname" || strings.HasPrefix(name, "math/rand.") || strings.HasPrefix(name, "crypto/rand.")) && f.discovering == nil {
+	if (name == "time.Now" || name == "time.Since" || name == "time.Until" || name == "os.Getenv" || name == "os.Hostname" || strings.HasPrefix(name, "math/rand.") || strings.HasPrefix(name, "crypto/rand.")) && f.discovering == nil {
 		if tc := f.topContract(); tc != nil {
 			for _, p := range tc.Props {
 				if p == "C12" {
@@ -124,6 +124,20 @@ func (f *Frame) execCall(v ssa.Value, c *ssa.CallCommon, st *State) {
 	}
 	if con, ok := vc.db.Contracts[name]; ok && name != "" {
 		// a function under verification may call itself: its own contract is used
+		// function-valued arguments: closures created in this frame whose body has a contract
+		f.fnArgCons = nil
+		for _, a := range c.Args {
+			if _, isFn := a.Type().Underlying().(*types.Signature); !isFn {
+				continue
+			}
+			var fc *Contract
+			if mc, ok := f.closures[a]; ok {
+				if cf, ok := mc.Fn.(*ssa.Function); ok {
+					fc = vc.db.Contracts[canonName(cf)]
+				}
+			}
+			f.fnArgCons = append(f.fnArgCons, fc)
+		}
 		res := f.applyContract(con, callee, sig, invoke, args, argTypes, st, site)
 		f.setResult(v, sig, res)
 		return
@@ -294,6 +308,32 @@ func (f *Frame) applyContract(con *Contract, callee *ssa.Function, sig *types.Si
 	for i, n := range pnames {
 		env.names[n] = SVal{args[i], env.goST(argTypes[i])}
 	}
+	if strings.Contains(con.Name, "$") && f.curInstr != nil {
+		// contract of a callback PARAMETER: its clauses may also mention the variables of the
+		// function that makes the call (their values at the call site)
+		blk := f.curInstr.Block()
+		idx := -1
+		for i, in := range blk.Instrs {
+			if in == f.curInstr {
+				idx = i
+			}
+		}
+		if idx >= 0 {
+			env.resolver = func(name string) (SVal, bool) {
+				if v, ok := f.resolveSourceNameAt(name, blk, idx, st, nil); ok {
+					return v, true
+				}
+				// parameters of the calling function
+				pn := paramNames(f.fn, f.fn.Signature, f.contract, false)
+				for i, p := range f.fn.Params {
+					if i < len(pn) && pn[i] == name {
+						return SVal{f.vals[p], env.goST(p.Type())}, true
+					}
+				}
+				return SVal{}, false
+			}
+		}
+	}
 	short := con.Name
 	// requires
 	for i, c := range con.Requires {
@@ -317,6 +357,46 @@ func (f *Frame) applyContract(con *Contract, callee *ssa.Function, sig *types.Si
 	}
 	pre := st.clone()
 	preAlloc := vc.get(st, "alloc")
+	// a callee that is handed a function value may invoke it: whatever that function does is not
+	// part of the callee's own modifies clause, so everything is havocked first (the callee's
+	// ensures are assumed afterwards)
+	if !con.Pure {
+		nFn := 0
+		for _, at := range argTypes {
+			if _, isFn := at.Underlying().(*types.Signature); isFn {
+				nFn++
+			}
+		}
+		if nFn > 0 {
+			precise := len(f.fnArgCons) == nFn
+			for _, fc := range f.fnArgCons {
+				if fc == nil || !fc.HasModifies {
+					precise = false
+				}
+			}
+			if precise {
+				// every function value handed over is a closure with its own (proved or trusted)
+				// contract: the callee can at most cause what those contracts may modify
+				for _, fc := range f.fnArgCons {
+					for _, m := range fc.Modifies {
+						switch m.Kind {
+						case "ghost":
+							if g, ok := vc.db.Ghosts[m.Name]; ok {
+								ty := vc.resolveType(g.Type, vc.pkgByRel(g.Pkg))
+								vc.registerVar("g:"+m.Name, ty.Sort)
+								st.vars["g:"+m.Name] = vc.fresh("g_"+m.Name, ty.Sort)
+							}
+						default:
+							vc.havocAll(st, m.Kind == "all")
+						}
+					}
+				}
+			} else {
+				vc.havocAll(st, true)
+			}
+		}
+		f.fnArgCons = nil
+	}
 	// havoc modifies
 	if !con.Pure && !con.HasModifies && !con.Trusted {
 		// a PROVED contract without a modifies clause claims no frame: callers may assume nothing
